@@ -127,6 +127,7 @@ func (e *Engine) VerifyFunc(key string) (res *FnResult) {
 	c.assertAll(fr)
 	c.hookedAll(fr)
 	c.ownVars(fr)
+	c.cancellable(fr)
 	c.runFunction(fr, st)
 	// postconditions
 	var retPCs []Term
